@@ -42,6 +42,11 @@ type CoffCase struct {
 	Order int `json:"order,omitempty"`
 	// Bits16: the program is 16-bit code (the usual objects are 32-bit)
 	Bits16 bool `json:"bits16,omitempty"`
+	// NoBits: no [BITS] directive at all (16-bit by default; only together with Bits16)
+	NoBits bool `json:"nobits,omitempty"`
+	// SectionAt > 0: the [SECTION .text] directive is written in front of statement SectionAt-1 instead of
+	// in front of all code
+	SectionAt int `json:"sectionat,omitempty"`
 }
 
 func (c *CoffCase) source(format bool) string {
@@ -49,6 +54,9 @@ func (c *CoffCase) source(format bool) string {
 	fm, is, bits, file := "", "", "[BITS 32]\n", ""
 	if c.Bits16 {
 		bits = "[BITS 16]\n"
+		if c.NoBits {
+			bits = ""
+		}
 	}
 	if format {
 		fm = "[FORMAT \"WCOFF\"]\n"
@@ -66,6 +74,8 @@ func (c *CoffCase) source(format bool) string {
 		sb.WriteString(fm + file + is + bits)
 	case 3:
 		sb.WriteString(is + fm + bits + file)
+	case 4:
+		sb.WriteString(bits + fm + is + file)
 	default:
 		sb.WriteString(fm + is + bits + file)
 	}
@@ -75,10 +85,13 @@ func (c *CoffCase) source(format bool) string {
 	if len(c.Externs) > 0 {
 		fmt.Fprintf(&sb, "\tEXTERN\t%s\n", strings.Join(c.Externs, ", "))
 	}
-	if c.Section {
+	if c.Section && c.SectionAt == 0 {
 		sb.WriteString("[SECTION .text]\n")
 	}
 	for i := 0; i <= len(c.Stmts); i++ {
+		if c.Section && c.SectionAt > 0 && i == c.SectionAt-1 {
+			sb.WriteString("[SECTION .text]\n")
+		}
 		for _, l := range c.Labels {
 			if l.Pos == i {
 				fmt.Fprintf(&sb, "%s:\n\t%s\n", l.Name, markerText(l.Ser))
@@ -526,7 +539,11 @@ func genCoffCase(t *rapid.T) CoffCase {
 		names = append(names, nm)
 		c.EndLabels = append(c.EndLabels, nm)
 	}
-	c.Order = rapid.SampledFrom([]int{0, 0, 0, 1, 2, 3}).Draw(t, "hdrorder")
+	c.Order = rapid.SampledFrom([]int{0, 0, 0, 1, 2, 3, 4}).Draw(t, "hdrorder")
+	c.NoBits = c.Bits16 && rapid.Bool().Draw(t, "nobits")
+	if c.Section && ns > 0 && rapid.IntRange(0, 2).Draw(t, "sectionlate") == 0 {
+		c.SectionAt = 1 + rapid.IntRange(0, ns).Draw(t, "sectionat")
+	}
 	// GLOBAL declarations: a random sub-multiset of the labels in random order, plus undefined names
 	pool := append([]string{}, names...)
 	nu := rapid.IntRange(0, 2).Draw(t, "nundef")
@@ -565,7 +582,7 @@ func genCoffCase(t *rapid.T) CoffCase {
 
 var propC08 = &Prop[CoffCase]{
 	ID:     "C08",
-	Rule:   "WCOFF programs (32-bit, one in five 16-bit; 0..12 statements incl. branches and calls to their labels and occasional 1k/40k/66k reservations) x 0..45 labels (some of them after the last byte of the program) x four orders of the header directives x GLOBAL statements declaring any sub-multiset of them (duplicates, undefined names, names of length 1..40 incl. exactly 8/9 and 18/19, shared prefixes; one object in eight with names of 33..40 bytes only) before and after the code x EXTERN x [FILE] of length 0..40 or absent; oracle: the same source assembled twice in one process gives the same object; strict COFF reader (every offset/count against the file size, aux records counted, string-table length, NUL-terminated long names) + debug/pe + (thorough, sampled) objdump; non-trivial = >= 1 GLOBAL and (a long name or non-empty .text); distinct by source text",
+	Rule:   "WCOFF programs (32-bit, one in five 16-bit; 0..12 statements incl. branches and calls to their labels and occasional 1k/40k/66k reservations) x 0..45 labels (some of them after the last byte of the program) x five orders of the header directives (also [BITS] before [FORMAT], or no [BITS] at all) x [SECTION .text] before or in the middle of the code x GLOBAL statements declaring any sub-multiset of them (duplicates, undefined names, names of length 1..40 incl. exactly 8/9 and 18/19, shared prefixes; one object in eight with names of 33..40 bytes only) before and after the code x EXTERN x [FILE] of length 0..40 or absent; oracle: the same source assembled twice in one process gives the same object; strict COFF reader (every offset/count against the file size, aux records counted, string-table length, NUL-terminated long names) + debug/pe + (thorough, sampled) objdump; non-trivial = >= 1 GLOBAL and (a long name or non-empty .text); distinct by source text",
 	Assume: []string{"debug/pe and binutils objdump as independent COFF readers"},
 	Gen:    genCoffCase,
 	Check:  checkC08,
